@@ -22,7 +22,7 @@ UNITS = {
     'langid_dir_likely': {'crate': 'unic-langid-impl', 'file': 'contracts/kani/langid_dir.rs', 'mod': 'verif_langid_dir',
                           'features': ['likelysubtags'], 'preds': True, 'gen': 'layout'},
     'langid_serde': {'crate': 'unic-langid-impl', 'file': 'contracts/kani/langid_serde.rs', 'mod': 'verif_langid_serde',
-                     'features': ['serde'], 'preds': False},
+                     'features': ['serde'], 'preds': False, 'needs': ['serde']},
     'locale_leaf': {'crate': 'unic-locale-impl', 'file': 'contracts/kani/locale_leaf.rs', 'mod': 'verif_locale_leaf',
                     'features': [], 'preds': True},
     'locale_unicode_leaf': {'crate': 'unic-locale-impl', 'file': 'contracts/kani/locale_unicode_leaf.rs', 'mod': 'verif_unicode_leaf',
@@ -94,7 +94,9 @@ def inject(unit, repo_copy, text):
     if not (os.path.exists(dst) and open(dst).read() == text):
         open(dst, 'w').write(text)
     host = os.path.join(croot, u.get('host', 'src/lib.rs'))
-    line = '\n#[cfg(kani)]\nmod %s;\n' % u['mod']
+    # a harness module that needs a cargo feature is only compiled when that feature is on (several units share one scratch copy)
+    cond = 'kani' if not u.get('needs') else 'all(kani, %s)' % ', '.join('feature = "%s"' % f for f in u['needs'])
+    line = '\n#[cfg(%s)]\nmod %s;\n' % (cond, u['mod'])
     cur = open(host).read()
     if line not in cur:
         open(host, 'a').write(line)
